@@ -578,7 +578,9 @@ def present(ctx, src, how=None, fresh=False):
     elif how == 'after-verifying-other-code':
         from pedal.source import verify
         contextualize_report(src)
-        verify('other_code_entirely = 99\nprint(other_code_entirely)\n')
+        if (PRESENTED['n'] // 12) % 2 == 0:
+            verify()            # (as an environment does on setting up; then the script looks at a helper file of its own)
+        verify('other_code_entirely = 99\nprint(other_code_entirely)\n', filename='helper.py' if (PRESENTED['n'] // 12) % 3 else 'answer.py')
         done = how
     elif how == 'after-sections-were-stopped':
         # the file has one marker; both parts were visited and verified, then the sections were stopped: the whole file is the
